@@ -184,6 +184,14 @@ def check_input_tuples(input_data, context, preprocessor, args_for_sk_checks,
       make_error_input(200, input_data, context)
   input_data = check_array(input_data, allow_nd=True, ensure_2d=False,
                            **args_for_sk_checks)
+  #  normally we don't need to check_tuple_size too because tuple_size
+  # shouldn't be able to be modified by any preprocessor
+  if input_data.ndim != 3:
+    # we have to ensure this because check_array above does not
+    if preprocessor_has_been_applied:
+      make_error_input(211, input_data, context)
+    else:
+      make_error_input(201, input_data, context)
   # we need to check num_features because check_array does not check it
   # for 3D inputs:
   if args_for_sk_checks['ensure_min_features'] > 0:
@@ -194,14 +202,6 @@ def check_input_tuples(input_data, context, preprocessor, args_for_sk_checks,
                        .format(n_features, input_data.shape,
                                args_for_sk_checks['ensure_min_features'],
                                context))
-  #  normally we don't need to check_tuple_size too because tuple_size
-  # shouldn't be able to be modified by any preprocessor
-  if input_data.ndim != 3:
-    # we have to ensure this because check_array above does not
-    if preprocessor_has_been_applied:
-      make_error_input(211, input_data, context)
-    else:
-      make_error_input(201, input_data, context)
   check_tuple_size(input_data, tuple_size, context)
   return input_data
 
